@@ -19,10 +19,8 @@ func ExampleServerFiles(genpkg string, root *expr.RootExpr) []*codegen.File {
 			fw = append(fw, m)
 		}
 	}
-	for _, svc := range root.API.HTTP.Services {
-		if f := dummyMultipartFile(genpkg, root, svc); f != nil {
-			fw = append(fw, f)
-		}
+	if f := dummyMultipartFile(genpkg, root); f != nil {
+		fw = append(fw, f)
 	}
 	return fw
 }
@@ -128,15 +126,14 @@ func exampleServer(genpkg string, root *expr.RootExpr, svr *expr.ServerExpr) *co
 }
 
 // dummyMultipartFile returns a dummy implementation of the multipart decoders
-// and encoders.
-func dummyMultipartFile(genpkg string, root *expr.RootExpr, svc *expr.HTTPServiceExpr) *codegen.File {
+// and encoders of all the services (they live in one file of the API package).
+func dummyMultipartFile(genpkg string, root *expr.RootExpr) *codegen.File {
 	mpath := "multipart.go"
 	if _, err := os.Stat(mpath); !os.IsNotExist(err) {
 		return nil // file already exists, skip it.
 	}
 	var (
 		sections []*codegen.SectionTemplate
-		mustGen  bool
 
 		scope = codegen.NewNameScope()
 	)
@@ -151,18 +148,12 @@ func dummyMultipartFile(genpkg string, root *expr.RootExpr, svc *expr.HTTPServic
 		}
 		scope.Unique(s.Service.PkgName)
 	}
-	{
-		specs := []*codegen.ImportSpec{
-			{Path: "mime/multipart"},
-		}
+	specs := []*codegen.ImportSpec{
+		{Path: "mime/multipart"},
+	}
+	for _, svc := range root.API.HTTP.Services {
 		data := HTTPServices.Get(svc.Name())
-		specs = append(specs, &codegen.ImportSpec{
-			Path: path.Join(genpkg, data.Service.PathName),
-			Name: data.Service.PkgName, // the name the generated references use; reserved in scope above
-		})
-
-		apiPkg := scope.Unique(strings.ToLower(codegen.Goify(root.API.Name, false)), "api")
-		sections = []*codegen.SectionTemplate{codegen.Header("", apiPkg, specs)}
+		mustGen := false
 		for _, e := range data.Endpoints {
 			if e.MultipartRequestDecoder != nil {
 				mustGen = true
@@ -181,10 +172,18 @@ func dummyMultipartFile(genpkg string, root *expr.RootExpr, svc *expr.HTTPServic
 				})
 			}
 		}
+		if mustGen {
+			specs = append(specs, &codegen.ImportSpec{
+				Path: path.Join(genpkg, data.Service.PathName),
+				Name: data.Service.PkgName, // the name the generated references use; reserved in scope above
+			})
+		}
 	}
-	if !mustGen {
+	if len(sections) == 0 {
 		return nil
 	}
+	apiPkg := scope.Unique(strings.ToLower(codegen.Goify(root.API.Name, false)), "api")
+	sections = append([]*codegen.SectionTemplate{codegen.Header("", apiPkg, specs)}, sections...)
 	return &codegen.File{
 		Path:             mpath,
 		SectionTemplates: sections,
